@@ -747,7 +747,7 @@ class Message:
         is_ip_literal = parsed.netloc.startswith("[") or (
             parsed.hostname.count(".") == 3
             and all(c in "0123456789." for c in parsed.hostname)
-            and all(int(x) <= 255 for x in parsed.hostname.split("."))
+            and all(x != "" and int(x) <= 255 for x in parsed.hostname.split("."))
         )
 
         if set_uri_host and not is_ip_literal:
